@@ -216,7 +216,8 @@ def effective_pixels(l):
         a = p[3]
         if l['trns'] and l['trns'][0] == 'key' and tuple(p[:3]) == tuple(l['trns'][1]):
             a = 0
-        if l['clip'] is not None and l['clip'][k]:
+        ic = l.get('ideal_clip') or l['clip']
+        if ic is not None and ic[k]:
             a = 0
         out.append((p[0], p[1], p[2], a))
     return out
@@ -236,10 +237,12 @@ def ref_compose(n, bg, bg_alpha, layers):
     return acc
 
 
-def ref_distance(actual, acc):
-    """largest premultiplied channel distance in 1/255 units"""
+def ref_distance(actual, acc, skip=()):
+    """largest premultiplied channel distance in 1/255 units (pixel indices in skip are not compared)"""
     worst = 0.0
-    for p, q in zip(actual, acc):
+    for k, (p, q) in enumerate(zip(actual, acc)):
+        if k in skip:
+            continue
         a = p[3] / 255.0
         for c in range(3):
             worst = max(worst, abs(p[c] / 255.0 * a - q[c]) * 255.0)
@@ -350,6 +353,52 @@ def real_mask(size, bbox, cov):
     return [v == 255 for v in vals]
 
 
+def shape_geom(kind, w, h):
+    """non-rectangular clip coverages on a w x h map (w, h >= 7 for the island shapes)"""
+    from shapely.geometry import box, MultiPolygon
+    if kind == 'lshape':
+        return box(-1, -1, w + 1, h + 1).difference(box(w - 2, h - 2, w + 1, h + 1))
+    if kind == 'two':
+        return MultiPolygon([box(-1, -1, 2, h + 1), box(w - 2, -1, w + 1, h + 1)])
+    ring = box(0, 0, w, h).difference(box(1, 1, w - 1, h - 1))
+    island = box(2, 2, w - 2, h - 2)
+    if kind == 'island':                 # enclosing polygon first
+        return MultiPolygon([ring, island])
+    if kind == 'island-first':           # valid MultiPolygon, island listed before the polygon whose hole holds it
+        return MultiPolygon([island, ring])
+    raise ValueError(kind)
+
+
+def cov_geometry(c):
+    """shapely geometry of a coverage description {'bbox': ..} / {'shape': .., 'w': .., 'h': ..}"""
+    from shapely.geometry import box
+    if c.get('shape'):
+        return shape_geom(c['shape'], c['w'], c['h'])
+    return box(*c['bbox'])
+
+
+def ideal_outside(geom, bbox, size, exact):
+    """per pixel: True = outside the coverage, False = inside, None = within a pixel of the boundary (the
+    rasteriser shrinks exteriors by 0.1 px and clears every pixel a hole touches: not decided by the oracle).
+    exact: pixel-aligned rectangle, decided by the pixel centre."""
+    from shapely.geometry import Point
+    w, h = size
+    out = []
+    for j in range(h):
+        for i in range(w):
+            pt = Point(bbox[0] + (i + 0.5) * (bbox[2] - bbox[0]) / w, bbox[3] - (j + 0.5) * (bbox[3] - bbox[1]) / h)
+            inside = geom.contains(pt)
+            if not exact and geom.boundary.distance(pt) <= 0.75 * (bbox[2] - bbox[0]) / w:
+                out.append(None)
+            else:
+                out.append(not inside)
+    return out
+
+
+def aligned(bb):
+    return all(float(v) == int(v) for v in bb)
+
+
 def gen_cov_bbox(rng, w, h):
     kind = rng.choice(['part', 'part', 'part', 'all', 'none', 'frac'])
     if kind == 'all':
@@ -367,6 +416,10 @@ def gen_cov_bbox(rng, w, h):
 
 def gen_merge_case(rng, valid):
     w, h = rng.choice([(1, 1), (2, 1), (2, 2), (3, 2), (3, 1), (1, 3)])
+    shape = None
+    if rng.random() < 0.06:
+        w, h = 7, 7
+        shape = rng.choice(['island', 'island', 'island', 'lshape', 'two', 'island-first'])
     n = w * h
     o = {'mode': rng.choice([None, None, None, 'P', 'RGB', 'RGBA']),
          'transparent': rng.choice([None, False, True, True]),
@@ -391,6 +444,12 @@ def gen_merge_case(rng, valid):
     gcov = None
     if nl and rng.random() < 0.2:
         gcov = {'bbox': gen_cov_bbox(rng, w, h), 'clip': True, 'raw_bbox': rng.random() < 0.5}
+    if shape and nl:
+        c = {'shape': shape, 'w': w, 'h': h, 'clip': True, 'bbox': None}
+        if rng.random() < 0.75:
+            layers[rng.randrange(nl)]['cov'] = c
+        else:
+            gcov = c
     return {'w': w, 'h': h, 'opts': o, 'layers': layers, 'gcov': gcov, 'size_given': nl == 0 or rng.random() < 0.8}
 
 
@@ -409,6 +468,11 @@ def merge_triggers(case):
         if any(p[3] < 255 for p in effective_pixels(ls[0])) and ls[0]['clip'] is None:
             trig.append('contract')       # a source declared non-transparent delivered transparency: not a failure
     return trig
+
+
+def trig_island(case):
+    cs = [l['cov'] for l in case['layers'] if l['cov']] + ([case['gcov']] if case['gcov'] else [])
+    return any(c.get('shape') == 'island-first' for c in cs)
 
 
 def merge_triggers_pre(case):
@@ -442,20 +506,28 @@ def run_merge_case(case):
             if l['cov'].get('raw_bbox'):
                 cov = coverage(l['cov']['bbox'], srs, clip=l['cov']['clip'])      # BBOXCoverage
             else:
-                cov = coverage(box(*l['cov']['bbox']), srs, clip=l['cov']['clip'])  # GeomCoverage
+                cov = coverage(cov_geometry(l['cov']), srs, clip=l['cov']['clip'])  # GeomCoverage
             if l['cov']['clip']:
                 l['clip'] = real_mask(size, bbox, cov)
+                l['ideal_clip'] = l['clip']
+                if l['cov'].get('shape') or aligned(l['cov']['bbox']):
+                    # independent of mask.py: decided from the geometry
+                    l['ideal_clip'] = ideal_outside(cov_geometry(l['cov']), bbox, size, not l['cov'].get('shape'))
         src = ImageSource(im, size=size, image_opts=opts)
         sources.append(src)
         merger.add(src, cov)
     gc = None
     case['gmask'] = None
+    case['ideal_gmask'] = None
     if case['gcov'] is not None:
         if case['gcov'].get('raw_bbox'):
             gc = coverage(case['gcov']['bbox'], srs, clip=True)
         else:
-            gc = coverage(box(*case['gcov']['bbox']), srs, clip=True)
+            gc = coverage(cov_geometry(case['gcov']), srs, clip=True)
         case['gmask'] = real_mask(size, bbox, gc)
+        case['ideal_gmask'] = case['gmask']
+        if case['gcov'].get('shape') or aligned(case['gcov']['bbox']):
+            case['ideal_gmask'] = ideal_outside(cov_geometry(case['gcov']), bbox, size, not case['gcov'].get('shape'))
     o = case['opts']
     ropts = ImageOptions(mode=o['mode'], transparent=o['transparent'], bgcolor=o['bgcolor'])
     try:
@@ -510,11 +582,20 @@ def oracle_merge(ctx, case, obs):
     bg_alpha = 0.0 if (rgba and o['transparent']) else 1.0
     acc = ref_compose(n, bg, bg_alpha,
                       [(effective_pixels(l), opfactor(l['opts']['opacity'] if l['opts'] else None)) for l in case['layers']])
-    if case['gmask'] is not None and case['layers']:
+    skip = set()
+    for l in case['layers']:
+        if l.get('ideal_clip'):
+            skip.update(k for k, v in enumerate(l['ideal_clip']) if v is None)
+    if case['ideal_gmask'] is not None and case['layers']:
         blank = ref_compose(n, bg, bg_alpha, [])
-        acc = [blank[k] if case['gmask'][k] else acc[k] for k in range(n)]
+        acc = [blank[k] if case['ideal_gmask'][k] else acc[k] for k in range(n)]
+        skip.update(k for k, v in enumerate(case['ideal_gmask']) if v is None)
     tol = 2.0 + 1.5 * len(case['layers'])
-    dist = ref_distance(pxs, acc)
+    dist = ref_distance(pxs, acc, skip)
+    if trig_island(case) and dist > tol:
+        ctx.fail('merge,clip-island-order', 'clip coverage MultiPolygon with the island listed before the polygon whose '
+                 'hole contains it: the island is erased from the clip mask (differs by %.1f/255)' % dist, rep)
+        return
     if dist > tol:
         sig = trig[0] if trig else 'merge,composition-differs'
         ctx.fail(sig, 'LayerMerger result differs from the bottom-to-top over composition by %.1f/255 (tolerance %.1f)'
@@ -568,21 +649,21 @@ def stream_merge(ctx):
 
 # ----------------------------------------------------------------------------- stream wms (real application)
 
-W = 3          # map is W x W pixels over bbox (0, 0, W, W) in EPSG:4326, one world cell per pixel
+W = 5          # map is W x W pixels over bbox (dx, dy, dx + W, dy + W) in EPSG:4326, one world cell per pixel
 URLS = ['http://u1.example/service', 'http://u2.example/service']
 
 
 class World(object):
     """synthetic upstream: every layer name is a function world cell -> RGBA"""
 
-    def __init__(self, rng, names):
+    def __init__(self, rng, names, kind=None):
         self.img = {}
         for nm in names:
-            kind = rng.choice(['binary', 'binary', 'opaque', 'any'])
+            k = kind or rng.choice(['binary', 'binary', 'opaque', 'any'])
             cells = {}
-            for x in range(-1, W + 1):
-                for y in range(-1, W + 1):
-                    a = 255 if kind == 'opaque' else (rng.choice([0, 255, 255]) if kind == 'binary' else bv(rng))
+            for x in range(-3, W + 3):
+                for y in range(-3, W + 3):
+                    a = 255 if k == 'opaque' else (rng.choice([0, 255, 255]) if k == 'binary' else bv(rng))
                     cells[(x, y)] = (bv(rng), bv(rng), bv(rng), a)
             self.img[nm] = cells
         self.log = []
@@ -637,8 +718,19 @@ def gen_config(rng, avoid_known):
             s['opacity'] = rng.choice([0.5, 0.25, 0.3, 0.7, 1.0, 0.0, 0.995, 0.99, 1.5])
         r = rng.random()
         if r < 0.3:
-            kind = rng.choice(['contains', 'disjoint', 'partial', 'partial-clip', 'partial-clip'])
-            if kind == 'contains':
+            kind = rng.choice(['contains', 'disjoint', 'partial', 'partial-clip', 'partial-clip', 'lshape-clip',
+                               'lshape-clip', 'two-clip'])
+            if kind == 'lshape-clip':
+                # not a rectangle: the extent contains the map, the polygon does not
+                a, b = rng.randrange(2, W - 1), rng.randrange(2, W - 1)
+                s['cov'] = {'bbox': None, 'clip': True, 'conf': {'clip': True, 'difference': [
+                    {'bbox': [-3, -3, W + 3, W + 3], 'srs': 'EPSG:4326'},
+                    {'bbox': [a, b, W + 3, W + 3], 'srs': 'EPSG:4326'}]}}
+            elif kind == 'two-clip':
+                s['cov'] = {'bbox': None, 'clip': True, 'conf': {'clip': True, 'union': [
+                    {'bbox': [-3, -3, 2, W + 3], 'srs': 'EPSG:4326'},
+                    {'bbox': [W - 1, -3, W + 3, W + 3], 'srs': 'EPSG:4326'}]}}
+            elif kind == 'contains':
                 s['cov'] = {'bbox': [-1, -1, W + 1, W + 1], 'clip': rng.random() < 0.5}
             elif kind == 'disjoint':
                 s['cov'] = {'bbox': [W + 2, 0, W + 4, W], 'clip': rng.random() < 0.5}
@@ -657,6 +749,18 @@ def gen_config(rng, avoid_known):
             s['tcolor'] = (255, 255, 255)
         sources['s%d' % i] = s
     snames = sorted(sources)
+    if rng.random() < 0.35:
+        # two sources of one server with the same opacity (and nothing else that keeps them apart)
+        a, b = rng.sample(snames, 2)
+        op = rng.choice([0.5, 0.25, 0.7])
+        for nm in (a, b):
+            sources[nm].update(url=sources[a]['url'], opacity=op, transparent=True, cov=None, res=None, tcolor=None)
+    if rng.random() < 0.25:
+        # two sources of one server behind the same (not clipping) coverage, the upper one explicitly opaque
+        a, b = rng.sample(snames, 2)
+        cov = {'bbox': [0, 0, W, W], 'clip': False}
+        sources[a].update(cov=dict(cov), transparent=True, opacity=None, res=None, tcolor=None)
+        sources[b].update(cov=dict(cov), transparent=False, opacity=None, res=None, tcolor=None, url=sources[a]['url'])
     layers = []
     leafs = []
     counter = [0]
@@ -666,7 +770,7 @@ def gen_config(rng, avoid_known):
         counter[0] += 1
         leafs.append(nm)
         d = {'name': nm, 'title': nm, 'sources': rng.sample(snames, min(len(snames), rng.choice([1, 1, 2, 3])))}
-        if rng.random() < 0.1:
+        if rng.random() < 0.2:
             d['min_res'] = 1000      # layer never renders the query
         return d
     names = []
@@ -707,7 +811,9 @@ def write_config(cfg, d):
         if img:
             c['image'] = img
         if s['cov'] is not None:
-            if s['cov']['clip'] and s['cov']['bbox'][0] % 2 == 0:
+            if s['cov'].get('conf'):
+                c['coverage'] = s['cov']['conf']
+            elif s['cov']['clip'] and s['cov']['bbox'][0] % 2 == 0:
                 c['coverage'] = {'union': [{'bbox': s['cov']['bbox'], 'srs': 'EPSG:4326'}], 'clip': True}
             else:
                 c['coverage'] = {'bbox': s['cov']['bbox'], 'srs': 'EPSG:4326', 'clip': s['cov']['clip']}
@@ -802,19 +908,60 @@ WMS_CHECK = ("fun c => let '(req, trs, table, n, o, log, obs) := c in "
              "list_eqb req_eqb (reqs_of rl) log && image_eqb (result_image r) obs")
 
 
+def fixed_scenarios():
+    """hand-written configurations and request sequences, run before the generated ones: one per mechanism"""
+    def src(url, layers, tr, **kw):
+        d = {'url': URLS[url], 'layers': layers, 'transparent': tr, 'opacity': None, 'cov': None, 'res': None,
+             'tcolor': None}
+        d.update(kw)
+        return d
+
+    def cfg(sources, layers):
+        names = []
+
+        def collect(ls):
+            for ly in ls:
+                names.append(ly['name'])
+                collect(ly.get('layers', []))
+        collect(layers)
+        return {'sources': sources, 'layers': layers, 'names': names}
+    both = [(True, None, (0, 0)), (False, (10, 200, 30), (0, 0))]
+    out = []
+    # two sources of one server with equal opacity: each layer is faded on its own
+    out.append((cfg({'s0': src(0, ['u0'], True, opacity=0.5), 's1': src(0, ['u1'], True, opacity=0.5)},
+                    [{'name': 'l0', 'title': 'l0', 'sources': ['s0', 's1']}]),
+                [(['l0'], t, bg, off) for t, bg, off in both]))
+    # an opaque layer that does not render the query (layer level min_res) hides nothing
+    out.append((cfg({'s0': src(0, ['u0'], False), 's1': src(1, ['u1'], False)},
+                    [{'name': 'l0', 'title': 'l0', 'sources': ['s0']},
+                     {'name': 'l1', 'title': 'l1', 'sources': ['s1'], 'min_res': 1000}]),
+                [(['l0', 'l1'], t, bg, off) for t, bg, off in both]))
+    # an opaque source clipped to a polygon that is not a rectangle: the map is inside the polygon's bbox only
+    lshape = {'bbox': None, 'clip': True, 'conf': {'clip': True, 'difference': [
+        {'bbox': [-3, -3, W + 3, W + 3], 'srs': 'EPSG:4326'}, {'bbox': [2, 2, W + 3, W + 3], 'srs': 'EPSG:4326'}]}}
+    out.append((cfg({'s0': src(0, ['u0'], False), 's1': src(1, ['u1'], False, cov=lshape)},
+                    [{'name': 'l0', 'title': 'l0', 'sources': ['s0']}, {'name': 'l1', 'title': 'l1', 'sources': ['s1']}]),
+                [(['l0', 'l1'], t, bg, off) for t, bg, off in both]))
+    # request sequence: a request that is only partly inside the coverage, then the full one
+    cov = {'bbox': [0, 0, W, W], 'clip': False}
+    out.append((cfg({'s0': src(0, ['u0'], True, cov=dict(cov)), 's1': src(0, ['u1'], False, cov=dict(cov))},
+                    [{'name': 'l0', 'title': 'l0', 'sources': ['s0', 's1']}]),
+                [(['l0'], True, None, (0, 0)), (['l0'], True, None, (2, 0)), (['l0'], True, None, (0, 0)),
+                 (['l0'], False, None, (-1, 1)), (['l0'], False, None, (0, 0))]))
+    return out
+
+
 def stream_wms(ctx):
     import mapproxy.client.http as H
     from mapproxy.wsgiapp import make_wsgi_app
     from mapproxy.layer import MapQuery
     from mapproxy.srs import SRS
-    from mapproxy.image.merge import LayerMerger
     from webtest import TestApp
     from PIL import Image
     rng = ctx.rng
-    nconf = ctx.n(28, 220)
+    nconf = ctx.n(24, 200)
     nreq = ctx.n(8, 10)
     size = (W, W)
-    bbox = (0, 0, W, W)
     n = W * W
     terms, descr = [], []
     sel_terms, sel_descr = [], []
@@ -842,13 +989,19 @@ def stream_wms(ctx):
         return res
     LayerRenderer._render_layer = rec_render
     WMSSource.combined_layer = rec_combined
+    fixed = fixed_scenarios()
     try:
-        for ci in range(nconf):
-            avoid_known = rng.random() < 0.75
-            cfg = gen_config(rng, avoid_known)
+        for ci in range(len(fixed) + nconf):
+            if ci < len(fixed):
+                cfg, planned = fixed[ci]
+                avoid_known = False
+                world = World(rng, ['u%d' % i for i in range(8)], kind='binary')
+            else:
+                avoid_known = rng.random() < 0.75
+                cfg, planned = gen_config(rng, avoid_known), None
+                world = World(rng, ['u%d' % i for i in range(8)])
             d = ctx.tmpdir('wms')
             path = write_config(cfg, d)
-            world = World(rng, ['u%d' % i for i in range(8)])
             H.HTTPClient.open = lambda self, url, data=None, method=None, _w=world: _w.open(url, data, method)
             try:
                 app = make_wsgi_app(path)
@@ -857,36 +1010,53 @@ def stream_wms(ctx):
             except Exception as e:  # noqa
                 ctx.problem('harness', 'generated configuration rejected: %r' % (e,), cfg)
                 continue
-            query = MapQuery(bbox, size, SRS(4326), 'image/png')
+            cur = {'bbox': (0, 0, W, W)}
+            cur['query'] = MapQuery(cur['bbox'], size, SRS(4326), 'image/png')
             intern = {k: Interner() for k in ('url', 'lname', 'srs', 'fmt', 'cov', 'dims', 'name')}
             src_ids = cur_ids
             src_ids.clear()
-            src_info = {}
+            snapshot = {}       # image_opts.transparent of every source as configured (before any request)
 
-            def src_lit(s, _ids=src_ids, _info=src_info):
+            def src_lit(s, _ids=src_ids, _snap=snapshot, _cur=cur):
                 if id(s) not in _ids:
                     _ids[id(s)] = len(_ids) + 1
-                t, info = src_term(s, query, [_ids[id(s)]], intern, size, bbox)
-                _info[id(s)] = info
+                    _snap[id(s)] = s.image_opts.transparent
+                t, info = src_term(s, _cur['query'], [_ids[id(s)]], intern, size, _cur['bbox'])
                 return t
             srcmap = {'name': lambda nm: intern['name'].code(nm), 'src': src_lit,
-                      'renders': lambda ly: bool(ly.renders_query(query))}
-            # correspondence of the predicates on the real objects: is_opaque, renders, map_layers, combined_layers
+                      'renders': lambda ly, _cur=cur: bool(ly.renders_query(_cur['query']))}
+            # correspondence of the predicates on the real objects: is_opaque, renders, map_layers
             for nm in cfg['names']:
                 ly = server.layers[nm]
-                real_op = bool(ly.is_opaque(query))
+                real_op = bool(ly.is_opaque(cur['query']))
                 t = wlayer_term(ly, srcmap)
                 real_ml = [(intern['name'].code(k), [src_ids[id(s)] for s in v])
-                           for k, v in ly.map_layers_for_query(query)]
+                           for k, v in ly.map_layers_for_query(cur['query'])]
                 sel_terms.append('(%s, %s, %s)' % (t, blit(real_op), llit(
                     real_ml, lambda kv: '(%d, %s)' % (kv[0], llit(kv[1])))))
                 sel_descr.append({'config': cfg, 'layer': nm, 'is_opaque': real_op, 'map_layers': real_ml})
                 ctx.evaluations += 1
-            # requests
-            for _ in range(nreq):
-                k = rng.choice([1, 1, 2, 2, 3, 3, 4, 5])
-                req_names = [rng.choice(cfg['names']) for _ in range(k)]
-                if avoid_known:
+            # requests (a sequence on one application instance)
+            history = []
+            first = None
+            nthis = len(planned) if planned else nreq
+            for ri in range(nthis + 1):
+                if ri == nthis:
+                    if first is None:
+                        break
+                    req_names, transparent, bg, off = first[0]      # the first request once more
+                elif planned:
+                    req_names, transparent, bg, off = planned[ri]
+                else:
+                    k = rng.choice([1, 1, 2, 2, 3, 3, 4, 5])
+                    req_names = [rng.choice(cfg['names']) for _ in range(k)]
+                    transparent = rng.random() < 0.5
+                    bg = rng.choice([None, (bv(rng), bv(rng), bv(rng))])
+                    off = (0, 0) if rng.random() < 0.7 else (rng.randrange(-2, 3), rng.randrange(-2, 3))
+                bbox = (off[0], off[1], off[0] + W, off[1] + W)
+                cur['bbox'] = bbox
+                cur['query'] = query = MapQuery(bbox, size, SRS(4326), 'image/png')
+                if avoid_known and not planned and ri < nthis:
                     seen_keys, kept = set(), []
                     for nm in req_names:
                         ks = [k for k, _ in server.layers[nm].map_layers_for_query(query)]
@@ -895,13 +1065,13 @@ def stream_wms(ctx):
                         kept.append(nm)
                         seen_keys.update(ks)
                     req_names = kept
-                transparent = rng.random() < 0.5
-                bg = rng.choice([None, (bv(rng), bv(rng), bv(rng))])
                 url = ('/service?SERVICE=WMS&VERSION=1.1.1&REQUEST=GetMap&LAYERS=%s&STYLES=&SRS=EPSG:4326&BBOX=%s'
                        '&WIDTH=%d&HEIGHT=%d&FORMAT=image/png&TRANSPARENT=%s' % (
                            ','.join(req_names), ','.join(str(v) for v in bbox), W, W, 'true' if transparent else 'false'))
                 if bg is not None:
                     url += '&BGCOLOR=0x%02x%02x%02x' % bg
+                # model terms are built BEFORE the request from the state of the real objects
+                req_t = llit([server.layers[nm] for nm in req_names], lambda ly: wlayer_term(ly, srcmap))
                 del world.log[:]
                 del added[:]
                 try:
@@ -915,21 +1085,33 @@ def stream_wms(ctx):
                     obs = ('error', 0, repr(e)[:200])
                 log = list(world.log)
                 adds = list(added)
-                rep = {'config': cfg, 'layers': req_names, 'transparent': transparent, 'bgcolor': bg,
+                rep = {'config': cfg, 'previous_requests_on_this_application': list(history), 'request': url,
+                       'layers': req_names, 'transparent': transparent, 'bgcolor': bg, 'bbox': bbox,
                        'upstream_requests': log, 'response': obs,
                        'upstream_layers': {k: sorted((list(c), v) for c, v in world.img[k].items()
-                                                     if 0 <= c[0] < W and 0 <= c[1] < W) for k in world.img}}
+                                                     if bbox[0] <= c[0] < bbox[2] and bbox[1] <= c[1] < bbox[3])
+                                           for k in world.img}}
+                history.append(url)
+                if ri == nthis:
+                    # same request, same application: the answer must not depend on what was asked in between
+                    if obs != first[1]:
+                        ctx.fail('wms,answer-depends-on-history', 'the first request of the sequence, repeated at the end, '
+                                 'is answered differently', dict(rep, first_response=first[1]))
+                    continue
+                if first is None:
+                    first = ((req_names, transparent, bg, off), obs)
                 nontrivial = len(req_names) >= 2
-                ctx.case(json.dumps([cfg, req_names, transparent, bg], sort_keys=True, default=repr), nontrivial,
-                         {k: rep[k] for k in ('layers', 'transparent', 'bgcolor', 'upstream_requests', 'response')}
+                ctx.case(json.dumps([cfg, req_names, transparent, bg, off, ri], sort_keys=True, default=repr), nontrivial,
+                         {k: rep[k] for k in ('layers', 'transparent', 'bgcolor', 'bbox', 'upstream_requests', 'response')}
                          if len(ctx.samples) < 6 else None)
                 ctx.count('wms:layers=%d' % len(req_names))
                 ctx.count('wms:upstream_requests=%d' % len(log))
+                ctx.count('wms:bbox=%s' % ('base' if off == (0, 0) else 'shifted'))
                 if obs[0] != 'image':
                     ctx.fail('wms,error', 'GetMap failed: %r' % (obs,), rep)
                     continue
                 # ---- oracle: ideal composition of the individually rendered sources
-                oracle_wms(ctx, server, req_names, transparent, bg, world, query, obs, rep, size, bbox)
+                oracle_wms(ctx, server, req_names, transparent, bg, world, query, obs, rep, size, bbox, snapshot)
                 # ---- model
                 if len(adds) != len(log):
                     ctx.problem('harness', 'number of merged images differs from number of upstream requests', rep)
@@ -947,7 +1129,6 @@ def stream_wms(ctx):
                     key = llit(ids)
                     table.append('(%s, %s)' % (key, layer_lit(lay)))
                 o = {'mode': None, 'transparent': transparent, 'bgcolor': bg}
-                req_t = llit([server.layers[nm] for nm in req_names], lambda ly: wlayer_term(ly, srcmap))
                 log_t = llit(log, lambda e: '(%d, %s)' % (intern['url'].code(e[0]),
                                                           llit([intern['lname'].code(x) for x in e[1]])))
                 terms.append('(%s, %s, %s, %d%%nat, %s, %s, %s)' % (
@@ -963,11 +1144,10 @@ def stream_wms(ctx):
                    "list_eqb (fun a b => (fst a =? fst b) && list_eqb Z.eqb (snd a) (snd b)) "
                    "(map (fun kv => (fst kv, flat_map s_ids (snd kv))) (w_map_layers w)) ml",
                    lambda i: sel_descr[i], shard=200)
-    ctx.corr_check('wms', 'Compose', WMS_TYPE, terms, WMS_CHECK, lambda i: descr[i], shard=60, defs=WMS_DEFS)
+    ctx.corr_check('wms', 'Compose', WMS_TYPE, terms, WMS_CHECK, lambda i: descr[i], shard=40, defs=WMS_DEFS)
 
 
-def wms_triggers(server, req_names, transparent, query, world):
-    from mapproxy.service.wms import WMSGroupLayer
+def wms_triggers(server, req_names, transparent, query, world, snapshot):
     trig = []
     if len(set(req_names)) != len(req_names):
         trig.append('wms,duplicate-layer-name')
@@ -983,8 +1163,10 @@ def wms_triggers(server, req_names, transparent, query, world):
         allsrc.extend(expand_ideal(server.layers[nm]))
     for a, b in zip(allsrc, allsrc[1:]):
         if a.client.request_template.url == b.client.request_template.url and a.opacity is None and b.opacity is None:
-            if b.image_opts.transparent is None or \
-                    str(b.client.request_template.params.get('transparent', 'false')).lower() != 'true':
+            # judged by the CONFIGURED transparent flag (snapshot), not by the current state of the object
+            if snapshot.get(id(b), b.image_opts.transparent) is None or (
+                    b.transparent_color and
+                    str(b.client.request_template.params.get('transparent', 'false')).lower() != 'true'):
                 # the upper source is still combined although its upstream request is not transparent (no
                 # transparent flag at all, or transparent: false together with transparent_color): rendered alone
                 # it is matted on the upstream background, combined the lower layers show through its holes
@@ -992,9 +1174,10 @@ def wms_triggers(server, req_names, transparent, query, world):
     return trig
 
 
-def oracle_wms(ctx, server, req_names, transparent, bg, world, query, obs, rep, size, bbox):
+def oracle_wms(ctx, server, req_names, transparent, bg, world, query, obs, rep, size, bbox, snapshot):
     n = size[0] * size[1]
     layers = []
+    skip = set()
     count = 0
     for nm in req_names:
         ly = server.layers[nm]
@@ -1010,24 +1193,25 @@ def oracle_wms(ctx, server, req_names, transparent, bg, world, query, obs, rep, 
                 tol = s.transparent_color_tolerance
                 pxs = [p[:3] + (0,) if all(abs(p[c] - s.transparent_color[c]) <= tol for c in range(3)) else p for p in pxs]
             if s.coverage:
-                cb = s.coverage.bbox
-                inside = []
-                for j in range(size[1]):
-                    for i in range(size[0]):
-                        x, y = bbox[0] + i + 0.5, bbox[3] - j - 0.5
-                        inside.append(cb[0] <= x <= cb[2] and cb[1] <= y <= cb[3])
-                pxs = [p if ins else p[:3] + (0,) for p, ins in zip(pxs, inside)]
+                geom = getattr(s.coverage, 'geom', None)
+                if geom is None:
+                    from shapely.geometry import box
+                    geom = box(*s.coverage.bbox)
+                outside = ideal_outside(geom, bbox, size, geom.equals(geom.envelope))
+                skip.update(k for k, v in enumerate(outside) if v is None)
+                pxs = [p[:3] + (0,) if out else p for p, out in zip(pxs, outside)]
             layers.append((pxs, opfactor(s.opacity)))
             count += 1
     bgc = bg or (255, 255, 255)
     acc = ref_compose(n, bgc, 0.0 if transparent else 1.0, layers)
     tol = 2.0 + 1.5 * count
-    dist = ref_distance(obs[2], acc)
+    dist = ref_distance(obs[2], acc, skip)
     if dist > tol:
-        trig = wms_triggers(server, req_names, transparent, query, world)
+        trig = wms_triggers(server, req_names, transparent, query, world, snapshot)
         sig = trig[0] if trig else 'wms,composition-differs'
-        ctx.fail(sig, 'GetMap LAYERS=%s TRANSPARENT=%s differs from the bottom-to-top composition of its layers by %.1f/255 '
-                 '(tolerance %.1f)' % (','.join(req_names), transparent, dist, tol), rep)
+        ctx.fail(sig, 'GetMap LAYERS=%s TRANSPARENT=%s BBOX=%s differs from the bottom-to-top composition of its layers by '
+                 '%.1f/255 (tolerance %.1f)' % (','.join(req_names), transparent, ','.join(str(v) for v in bbox), dist, tol),
+                 rep)
 
 
 def run(ctx):
